@@ -102,4 +102,5 @@ def main():
           "failures": rest[:50], "known": hit, "known_covered": len(failures) - len(rest)})
 
 
-main()
+if __name__ == "__main__":
+    main()
